@@ -39,6 +39,12 @@ def install_parse_stubs(M, snap, native_errors, text=None):
             state['errors'] = d2.get('syntax_errors')
             M_.env['content_altered'] = got
             M_.env['snap'] = state['snap']
+        elif text is not None and state.get('calls'):
+            # a later call with the original text again (sequences of calls in one machine): a fresh copy of its parse
+            state['snap'] = Snapshot(M_.p, snap.dump).load()
+            state['errors'] = native_errors
+            M_.env['snap'] = state['snap']
+        state['calls'] = state.get('calls', 0) + 1
         rec = Ptr(Cell(p.zero(p.tid_of(ANTLR + '.BaseRecognizer')), tag='stub-recognizer'))
         bp = p.zero(p.tid_of(ANTLR + '.BaseParser'))
         bp[0] = rec
@@ -539,6 +545,42 @@ def c16_text(t, dump, tier, modes=('dsl', 'file', 'file+readerr', 'file+writeerr
             raise
         except Exception as ex:
             stats['inconclusive'].append('export: engine error %s: %s' % (type(ex).__name__, str(ex)[:120]))
+        # the library lives inside a long-running host (an editor): the SAME machine answers a sequence of calls - the text, the
+        # text again, another text, the text once more - and every answer for the text must be the answer of the first call's
+        # specification (package-level state of the wrapper survives between the calls)
+        other = 'root packet Zz {\n    u8 q,\n}\n' if 'packet Zz' not in t.text else 'root packet Yy {\n    u8 q,\n}\n'
+
+        def run3(c):
+            M = make_machine(c)
+            snap = Snapshot(prog, dump).load()
+            install_parse_stubs(M, snap, dump.get('syntax_errors'), text=t.text)
+            install_cgo_stubs(M)
+            outs = []
+            for txt in (t.text, t.text, other, t.text):
+                # the parse stub answers with the native parse of whatever text the wrapper hands the library
+                r = M.call(exp, [('cstr', go_str(txt))])
+                outs.append(to_pystr(r[1]) if isinstance(r, tuple) and r[0] == 'cstr' else None)
+            return outs
+        try:
+            if len(t.text) < 20000:
+                ctl, paths = explore([], run3, 8)
+                for (kind, val), pc in paths:
+                    stats['paths'] += 1
+                    if kind != 'ok':
+                        continue
+                    for i in (1, 3):
+                        ok = (val[i] == lib_out) if lib_err is None else (val[i] is not None and val[i].startswith('Error:'))
+                        ok0 = (val[0] == lib_out) if lib_err is None else (val[0] is not None and val[0].startswith('Error:'))
+                        if ok0 and not ok:
+                            res.append(BFinding('C16', 'lib:FormatPacketDslExport', t.tag, 'repeated-call-differs', 'call %d of a sequence in one process returns %r where the first call returned %r' % (
+                                i + 1, (val[i] or '')[:80], (val[0] or '')[:80]), {'text': t.text}))
+                            break
+        except Unsupported as u:
+            stats['inconclusive'].append('export sequence: %s' % str(u)[:150])
+        except (GoPanic, GoExit):
+            raise
+        except Exception as ex:
+            stats['inconclusive'].append('export sequence: engine error %s: %s' % (type(ex).__name__, str(ex)[:120]))
     elif export:
         stats['inconclusive'].append('FormatPacketDslExport not in the SSA dump')
     return res, stats
